@@ -226,8 +226,8 @@ def _fold_env(expr, env):
     for n in ast.walk(expr):
         if isinstance(n, ast.Name) and n.id not in env and n.id not in allowed:
             raise AnalysisError(f"`{norm(expr)}` reads `{n.id}`; it cannot be folded for an empty parameter")
-        if isinstance(n, ast.Call) and isinstance(n.func, ast.Attribute) and n.func.attr not in ("isdecimal", "isdigit", "isnumeric", "lstrip", "rstrip", "strip", "startswith", "endswith"):
-            raise AnalysisError(f"`{norm(expr)}` calls .{n.func.attr}(); it cannot be folded for an empty parameter")
+        if isinstance(n, ast.Call) and isinstance(n.func, ast.Attribute) and n.func.attr not in ("isdecimal", "isdigit", "isnumeric", "lstrip", "rstrip", "strip", "startswith", "endswith", "rsplit", "split", "rpartition", "partition", "removesuffix", "replace", "rfind", "find", "rindex", "index", "splitlines", "count"):
+            raise AnalysisError(f"`{norm(expr)}` calls .{n.func.attr}(); it cannot be folded")
         if isinstance(n, (ast.Lambda, ast.Await, ast.Yield, ast.YieldFrom, ast.NamedExpr, ast.ListComp, ast.GeneratorExp, ast.DictComp, ast.SetComp)):
             raise AnalysisError(f"`{norm(expr)}` cannot be folded")
     code = compile(ast.fix_missing_locations(ast.Expression(body=ast.parse(norm(expr), mode="eval").body)), "<fold>", "eval")
@@ -394,6 +394,60 @@ def r19_14(ctx):
         ctx.violation(f.fq, short(comp), w2, f"an omitted parameter becomes {val!r}, not 0: ESC[m does not reset")
     else:
         ctx.ok(w2, "an omitted parameter is read as 0 (reset)", f.fq)
+
+
+def r19_15(ctx):
+    ctx.rule("R19.15", "a carriage return discards only what precedes it: decode_line keeps what follows the last '\\r' so that a line rewritten in place shows its final state, but a line that merely ends in '\\r' (every line of CRLF output) has nothing after it and must keep its text. The statements that reduce the line before it is tokenized are folded for the literal 'ab\\r': the result must still contain 'ab'")
+    f = ctx.repo.fn("ansi:AnsiDecoder.decode_line")
+    m = f.module
+    if len(f.params) < 2:
+        raise AnalysisError("decode_line: no line parameter")
+    lv = f.params[1]
+    loop = None
+    for n in f.node.body:
+        for x in ast.walk(n):
+            if isinstance(x, ast.Call) and call_name(x) == "_ansi_tokenize" and loop is None:
+                loop = (n, x)
+    if loop is None:
+        raise AnalysisError("decode_line: the call of _ansi_tokenize was not found at the top level of the function")
+    top, tcall = loop
+    if len(tcall.args) != 1:
+        raise AnalysisError("decode_line: _ansi_tokenize is not called with one argument")
+    results = {}
+    for probe in ("ab\r", "ab\r\r", "xy\rab"):
+        env = {lv: probe}
+        for st in f.node.body:
+            if st is top:
+                break
+            names = {n.id for n in ast.walk(st) if isinstance(n, ast.Name)}
+            stores = {n.id for n in ast.walk(st) if isinstance(n, ast.Name) and isinstance(n.ctx, ast.Store)}
+            if not (names & set(env)):
+                continue
+            if not (stores & set(env)) and not isinstance(st, (ast.If, ast.While, ast.For)):
+                # reads the line without changing it (e.g. a length check): only assignments matter; a read into another local is tracked
+                if isinstance(st, ast.Assign) and isinstance(st.targets[0], ast.Name):
+                    try:
+                        okc, val = _fold_env(st.value, env)
+                    except AnalysisError:
+                        continue
+                    if okc:
+                        env[st.targets[0].id] = val
+                continue
+            _vals, how = _fold_loop_body([st], env, "__no_sink__")
+            if isinstance(how, tuple):
+                raise AnalysisError(f"decode_line: `{short(st)}` raises for the line {probe!r}")
+        okv, val = _fold_env(tcall.args[0], env)
+        if not okv or not isinstance(val, str):
+            raise AnalysisError(f"decode_line: the argument of _ansi_tokenize cannot be folded for the line {probe!r}")
+        results[probe] = val
+    where = f"{m.relpath}:{top.lineno}"
+    bad = [p_ for p_ in ("ab\r", "ab\r\r") if "ab" not in results[p_]]
+    if bad:
+        ctx.violation(f.fq, norm(tcall), where, f"a line that ends in a carriage return is reduced to {results[bad[0]]!r} before it is tokenized ({bad[0]!r} -> {results[bad[0]]!r}): every line of CRLF output written to a redirected stream is printed empty - FileProxy.write('hello\\r\\n') prints a blank line")
+    else:
+        ctx.ok(where, f"'ab\\r' is tokenized as {results['ab' + chr(13)]!r}, 'xy\\rab' as {results['xy' + chr(13) + 'ab']!r}", f.fq)
+    if "ab" not in results["xy\rab"]:
+        ctx.violation(f.fq, norm(tcall), where, f"the text after the last carriage return is lost ('xy\\rab' -> {results['xy' + chr(13) + 'ab']!r})")
 
 
 def r19_4(ctx):
@@ -745,4 +799,4 @@ def r19_12(ctx):
         ctx.ok(init.where, f"decoder slot(s) {sorted(slots)} stored only in __init__", init.fq)
 
 
-RULES = [r19_1, r19_2, r19_3, r19_4, r19_5, r19_6, r19_8, r19_9, r19_10, r19_11, r19_12, r19_13, r19_14]
+RULES = [r19_1, r19_2, r19_3, r19_4, r19_5, r19_6, r19_8, r19_9, r19_10, r19_11, r19_12, r19_13, r19_14, r19_15]
